@@ -42,8 +42,12 @@ CLAIMS = {
          "TLC trace validation of the force-32bits build against the curve specifications + TLC validation of the two-backend product trace"),
  "C18": ("every helper of constant_time.rs, MacResult == and Tag ==: formulas transcribed at word width 8 and model-checked against their plain meanings on all 2^16 operand pairs (CT.tla); the real helpers evaluated on all byte pairs, the 64-bit boundary set squared + seeded pairs, arrays/slices of every length 0..40 equal or differing at every single position, limb arrays, choice algebra, option wrapper, swap/set for both choices; every result validated by TLC against the plain meaning (TraceCT)", "5 C18",
          "TLC exhaustive model checking of the branch-free formulas at width 8 + TLC trace validation of the real helpers against their plain meanings"),
+ "C19": ("instruction-address traces of the release build, recorded by single-stepping the victim under ptrace between two markers (ct/pctrace.c), for X25519 (general / fixed-base), Ed25519 keygen and signing, Poly1305 (incl. keys that drive the accumulator above p), HMAC-SHA1/256/512, ChaCha20, Salsa20, MacResult == (5 tag lengths) and Tag == (equal + every first-mismatch position): per victim and public input the digest streams of all secrets are validated in lock-step by the product specification TraceEquiv; the 2-safety property itself is model-checked by self-composition on the crate's four constant-time idioms (NonInterference.tla) and on the ladder skeleton (Ladder.tla)", "5 C19",
+         "TLC model checking of a self-composed non-interference model + TLC validation of the product of recorded program-counter traces (ptrace single-stepping)"),
+ "C20": ("the argument-shape domain of every entry point enumerated by TLC from ApiDomain.tla (1 709 shapes: each length / round count / size / parameter one below and one above its legal values, zero, large; phase misuse; one-shot reuse), each executed in the dev, checked-release and release profiles: outcome class validated by TraceApi (extends ApiDomain), values by the functional trace specifications, the three profiles in lock-step by TraceEquiv; BLAKE2 and cipher counters preset next to 2^32 / 2^64 through the hooks with digests / keystream recomputed by TLC for those counter values; the workloads of C01-C15 in all three profiles in lock-step; counter step rules model-checked in a checked and an unchecked profile (Counters.tla)", "5 C20",
+         "TLC-enumerated argument shapes replayed on three build profiles + TLC trace validation of outcome classes and values + TLC validation of the three-profile product trace + TLC model checking of the counter rules"),
 }
-NA = {"C19": "check not built yet (work in progress; planned per DESIGN.md section 5)", "C20": "check not built yet (work in progress; planned per DESIGN.md section 5)"}
+NA = {}
 def main():
     props = [json.loads(l) for l in open(os.path.join(ROOT, "properties.jsonl"))]
     commits = subprocess.run(["git", "-C", "/repo", "log", "--format=%H %s"], capture_output=True, text=True).stdout.splitlines()
